@@ -30,7 +30,15 @@ STREAMS = {
     "responses": [dict(kind="extended_response", name=True, value=True, nref=None), dict(kind="bind_response", nref=1, creds=True)],
     "single_sasl": [dict(kind="bind_request", auth="sasl")],
 }
-STREAM_SIDE = {"bind_then_search": "server", "search_results": "client", "extended": "server", "responses": "client", "single_sasl": "server"}
+SHORT_STREAMS = {
+    "long_short_srv": [dict(kind="extended_request", value=True, controls=["generic_val"]), dict(kind="unbind")],
+    "short_long_srv": [dict(kind="extended_request", value=False), dict(kind="extended_request", value=True, controls=["generic_val"])],
+    "long_short_cli": [dict(kind="search_entry", attrs=[1]), dict(kind="search_done", nref=None)],
+    "short_long_cli": [dict(kind="search_reference", nuri=1), dict(kind="extended_response", name=True, value=True, nref=None)],
+}
+STREAMS.update(SHORT_STREAMS)
+STREAM_SIDE = {"bind_then_search": "server", "search_results": "client", "extended": "server", "responses": "client", "single_sasl": "server",
+               "long_short_srv": "server", "short_long_srv": "server", "long_short_cli": "client", "short_long_cli": "client"}
 
 
 def units(tier):
@@ -46,9 +54,22 @@ def units(tier):
     for name in STREAMS:
         us.append({"name": f"stream1_{name}", "shape": {"kind": "stream", "stream": name, "cuts": 1}})
         us.append({"name": f"alias_{name}", "shape": {"kind": "alias", "stream": name}})
+        # the same stream as a conforming peer may encode it: every length in the long form with
+        # leading zero octets (Active Directory style); cuts then also fall inside length octets
+        us.append({"name": f"stream1_long_{name}", "shape": {"kind": "stream", "stream": name, "cuts": 1, "long": 4}})
         if not quick:
             us.append({"name": f"stream2_{name}", "shape": {"kind": "stream", "stream": name, "cuts": 2}})
-    return us
+            us.append({"name": f"stream2_long_{name}", "shape": {"kind": "stream", "stream": name, "cuts": 2, "long": 2}})
+    # two cuts (three chunks) over short two-message streams: long-then-short and short-then-long,
+    # so that a delivery can end inside the second message after the buffered path finished the first
+    for name in SHORT_STREAMS:
+        us.append({"name": f"stream2_{name}", "shape": {"kind": "stream", "stream": name, "cuts": 2}})
+    seen, out = set(), []
+    for u in us:
+        if u["name"] not in seen:
+            seen.add(u["name"])
+            out.append(u)
+    return out
 
 
 def snapshot(ctx, sess):
@@ -164,7 +185,13 @@ def _stream(ctx, shape):
         mid = (1 if sk["kind"].startswith("search") else 2) if side == "client" else i + 1
         m = msgs.build(_renamed(ctx, f"m{i}."), dict(sk), mid=mid)
         built.append(m)
-        data = data + m.pack(M.PackingOptions())
+        enc = m.pack(M.PackingOptions())
+        if shape.get("long"):
+            from checks import c04
+
+            (root,) = c04.parse(ctx.tobytes(enc), 0, len(enc))
+            enc = c04.encode(root, lambda nd: {"extra": shape["long"]})
+        data = data + enc
     n = len(data)
     whole = common.make_session(ctx, side, pre)
     ow = outcome(ctx, whole, data)
